@@ -91,12 +91,17 @@ pub fn sweep_layout(ctx: &mut Ctx) -> std::sync::Arc<Vec<SweepItem>> {
         let after_open: Vec<Op> = vec![Op::Meta, Op::Range(SheetArg::Idx(0)), Op::Range(SheetArg::Idx(n_sheets - 1)), Op::Formula(SheetArg::Idx(0)), Op::Vba, Op::LoadTables, Op::TableNames, Op::LoadMerged, Op::MergedAll, Op::MergeCells(SheetArg::Idx(0))];
         // events of the open call on a perfect disk
         for entry in [own, Entry::Auto] {
-            let dry = execute(fx.bytes.clone(), entry, crate::simdisk::Delivery::perfect(), &[], limits, &ExecOpts { capture: false, stop_on_panic: true, probes: &[] });
+            let dry = execute(fx.bytes.clone(), entry, crate::simdisk::Delivery::perfect(), &[], limits, &ExecOpts { capture: false, stop_on_panic: true, probes: &[], record_kinds: true });
             let n = dry.open_events as usize;
+            let open_kinds: Vec<u8> = dry.kinds.iter().filter(|(op, _)| *op == 0).map(|(_, k)| *k).collect();
             let step = (n + cap - 1) / cap.max(1);
             for e in (0..n).step_by(step.max(1)) {
                 for kind in [FaultKind::Eio, FaultKind::Eintr] {
                     if entry == Entry::Auto && kind == FaultKind::Eintr {
+                        continue;
+                    }
+                    // EINTR is a behaviour of reads: placing it on a seek would be a fault without workload
+                    if kind == FaultKind::Eintr && open_kinds.get(e) != Some(&b'r') {
                         continue;
                     }
                     items.push(SweepItem { fixture: fi, entry, ops: after_open.clone(), fault: PlacedFault { op: 0, rel: e as u32, kind } });
@@ -105,7 +110,7 @@ pub fn sweep_layout(ctx: &mut Ctx) -> std::sync::Arc<Vec<SweepItem>> {
         }
         // events of each kind of read call
         for h in sweep_histories(fx.format, n_sheets, n_tables) {
-            let dry = execute(fx.bytes.clone(), own, crate::simdisk::Delivery::perfect(), &h, limits, &ExecOpts { capture: false, stop_on_panic: true, probes: &[] });
+            let dry = execute(fx.bytes.clone(), own, crate::simdisk::Delivery::perfect(), &h, limits, &ExecOpts { capture: false, stop_on_panic: true, probes: &[], record_kinds: false });
             for (call, rec) in dry.ops.iter().enumerate() {
                 // fault the first call that does I/O (and, for histories that start with a load, the call after it)
                 if rec.events == 0 || call > 1 {
@@ -604,7 +609,7 @@ pub fn exec_spec(ctx: &mut Ctx, spec: &RunSpec, idx: u64) -> RunResult {
     };
     let clean = ctx.models.get(&fx).clean_cpu_ns;
     let limits = Limits::for_input(fx.bytes.len(), crate::c08::cpu_budget(clean) * ctx.cpu_scale);
-    let ex = execute(fx.bytes.clone(), spec.entry, spec.delivery.clone(), &spec.ops, limits, &ExecOpts { capture: false, stop_on_panic: true, probes: &[] });
+    let ex = execute(fx.bytes.clone(), spec.entry, spec.delivery.clone(), &spec.ops, limits, &ExecOpts { capture: false, stop_on_panic: true, probes: &[], record_kinds: false });
     let (violations, probes) = check(ctx, spec, &ex);
     let mut s = Sig::new();
     s.u(det_hash(&ex));
@@ -649,7 +654,7 @@ pub fn final_spec(ctx: &mut Ctx, idx: u64) -> RunSpec {
     let fx = ctx.fixture(&spec.file).unwrap();
     let clean = ctx.models.get(&fx).clean_cpu_ns;
     let limits = Limits::for_input(fx.bytes.len(), crate::c08::cpu_budget(clean) * ctx.cpu_scale);
-    let dry = execute(fx.bytes.clone(), spec.entry, spec.delivery.clone(), &spec.ops, limits, &ExecOpts { capture: false, stop_on_panic: true, probes: &[] });
+    let dry = execute(fx.bytes.clone(), spec.entry, spec.delivery.clone(), &spec.ops, limits, &ExecOpts { capture: false, stop_on_panic: true, probes: &[], record_kinds: false });
     let (v, _) = check(ctx, &spec, &dry);
     if !v.is_empty() {
         // the fault-free configuration already violates: report that, strictly
